@@ -92,6 +92,14 @@ def oracle(st0, other, m, st1, shared_ids=False, times=1):
     return bad
 
 
+def lengthen(frag):
+    """the fragment's extra values are longer than every value the structure holds (a freshly built structure stores them in a fixed-width array)"""
+    frag["xf"] = [[v + "-a-much-longer-value" for v in r] for r in frag["xf"]]
+    for k, *_ in KINDS:
+        frag[k]["xf"] = [[v + "-a-much-longer-value" for v in r] for r in frag[k]["xf"]]
+    return frag
+
+
 def term_configs(run, coeffs):
     """pairs (structure, fragment) with forward / reversed duplicates in every kind"""
     rng = run.rng
@@ -100,6 +108,8 @@ def term_configs(run, coeffs):
     for c in range(nconf):
         base = tagged(rng, 4, "s", coeffs, cell=CELL, rich=True, max_terms=3)
         frag = tagged(rng, 3, "f", coeffs, rich=True, max_terms=2)
+        if c % 2 == 1:
+            lengthen(frag)
         out.append((base, frag))
     return out
 
@@ -162,6 +172,8 @@ def main(tier, seed, replay=None):
                         base[k]["xf"] = [[r[0]] + ["b%s%d" % (l, j) for l in kl] for j, r in enumerate(base[k]["xf"])]
                         frag[k]["xl"] = ["tid"] + kl[::-1]
                         frag[k]["xf"] = [[r[0]] + ["f%s%d" % (l, j) for l in kl[::-1]] for j, r in enumerate(frag[k]["xf"])]
+                if i % 4 == 1:
+                    lengthen(frag)
                 r = run.rng.randint(0, min(ns, no))
                 m = list(zip(run.rng.sample(range(no), r), run.rng.sample(range(ns), r)))
                 # make some fragment terms coincide (forwards / reversed / permuted) with existing ones through the map
